@@ -25,6 +25,12 @@ CLAIMED = {
  "C14": K("per-page comparison with the state the page's transaction saw + traversal oracle across pages", "Each page must be the newest-first matching set of the state its search transaction saw, with a cursor iff full; a completed traversal must contain every item that matched throughout exactly once, in order; forged cursors are refused.", "DESIGN.md 5 C14"),
  "C19": K("independent receiver resolution function checked against every hand-off of the production router + sender worker", "For every dispatched task the message must reach the transport and address the statement prescribes, with the body naming that exact task; unresolvable addresses must produce failed, retried hand-offs, never a message.", "DESIGN.md 5 C19"),
 }
+CLAIMED["C16"] = ("S", "deterministic simulation with fault injection: store-level refinement against an in-memory reference store, with failing statement positions and a mid-transaction observer",
+  "Generated batches of store transactions (all 27 command kinds, small argument domains) run through the production Process/Execute/SQL on real SQLite and through the reference store; results and table contents compared after every batch; injected statement/begin/commit failures must fail every submission without effects; a second connection must see nothing before commit. Seeded sampling: evidence, not proof.",
+  "Trusts SQLite's engine and atomic commit; the reference store is written from the command contract.", "DESIGN.md 5 C16")
+CLAIMED["C17"] = ("S", "deterministic simulation with fault injection: twin run of the SQLite backend and the Postgres backend code over a dialect-rewriting driver, both against the reference store",
+  "The same generated batches (and injected failures) go through sqlite.go and postgres.go; the Postgres statements are executed on SQLite by a syntactic rewriting driver, so guards, argument order, scan order and result mapping of postgres.go are exercised for real; results and contents are compared with the reference store and with each other. Seeded sampling with a stubbed database server.",
+  "No Postgres server in the sandbox: server-only behaviour (isolation with several workers, LIKE case rules, jsonb normalisation) is not decided. See DESIGN.md 9.", "DESIGN.md 5 C17, 9")
 
 def hooks_commits():
     out = subprocess.run(["git", "-C", "/repo", "log", "--format=%H %s"], capture_output=True, text=True).stdout
@@ -64,6 +70,8 @@ def main():
 
 NA = {}
 ENGINES = [
+ {"name": "S", "path": "/verif/sim/s", "serves_properties": ["C16", "C17"],
+  "kind_free_text": "store-only engine: generated batches of store transactions through the production store code of one or both backends over the fault-injecting driver, compared with the in-memory reference store and a mid-transaction observer"},
  {"name": "K", "path": "/verif/sim/k", "serves_properties": sorted(p for p, v in CLAIMED.items() if v[0] == "K"),
   "kind_free_text": "single-threaded seeded simulator around the production kernel (api/aio queues, system.Tick, coroutines, store/router/sender processing) over real SQLite through a fault-injecting database/sql driver; table monitor, reference store model, sequential API specification"},
 ]
